@@ -79,6 +79,8 @@ pub fn unify(state: &mut TypeCheckerState, watchdog: &DynWatchdog) -> Result<()>
 
             // If there are no inferences for this type variable, go to the next one.
             if inferences.is_empty() {
+                // This iteration still counts towards the polling interval
+                counter += 1;
                 continue;
             }
 
